@@ -351,7 +351,7 @@ theorem soundB : (b : BoolE) → wfB b = true → semOkB ρ b = true →
       obtain ⟨tl, hml, hel⟩ := soundI isD ρ l hw.1 hs.1
       obtain ⟨tr, hmr, her⟩ := soundI isD ρ r hw.2 hs.2
       refine ⟨.bin (cmpName k.toOp) tl tr, ?_, ?_⟩
-      · rw [BoolE.toExpr, mirror_compare _ _ _ _ (toOp_ne_in k) (isNullLit_I r), hml, hmr]; rfl
+      · rw [BoolE.toExpr, mirror_compare _ _ _ _ (toOp_ne_in k) (isNullLit_I l) (isNullLit_I r), hml, hmr]; rfl
       · have : evalB ρ (.cmpI k l r) = cmp2 (cmpInt k) (evalI ρ l) (evalI ρ r) := by
           rw [evalB]; cases evalI ρ l <;> cases evalI ρ r <;> rfl
         rw [this, eval_cmp ρ k tl tr _ _ hel her, cmpVals_int]
@@ -361,7 +361,7 @@ theorem soundB : (b : BoolE) → wfB b = true → semOkB ρ b = true →
       obtain ⟨tl, hml, hel⟩ := soundS isD ρ l hw.1 hs.1
       obtain ⟨tr, hmr, her⟩ := soundS isD ρ r hw.2 hs.2
       refine ⟨.bin (cmpName k.toOp) tl tr, ?_, ?_⟩
-      · rw [BoolE.toExpr, mirror_compare _ _ _ _ (toOp_ne_in k) (isNullLit_S r), hml, hmr]; rfl
+      · rw [BoolE.toExpr, mirror_compare _ _ _ _ (toOp_ne_in k) (isNullLit_S l) (isNullLit_S r), hml, hmr]; rfl
       · have : evalB ρ (.cmpS k l r) = cmp2 (cmpStr k) (evalS ρ l) (evalS ρ r) := by
           rw [evalB]; cases evalS ρ l <;> cases evalS ρ r <;> rfl
         rw [this, eval_cmp ρ k tl tr _ _ hel her, cmpVals_str]
@@ -371,7 +371,7 @@ theorem soundB : (b : BoolE) → wfB b = true → semOkB ρ b = true →
       obtain ⟨tl, hml, hel⟩ := soundB l hw.1.2 hs.1.2
       obtain ⟨tr, hmr, her⟩ := soundB r hw.2 hs.2
       refine ⟨.bin (cmpName k.toOp) tl tr, ?_, ?_⟩
-      · rw [BoolE.toExpr, mirror_compare _ _ _ _ (toOp_ne_in k) (isNullLit_B r), hml, hmr]; rfl
+      · rw [BoolE.toExpr, mirror_compare _ _ _ _ (toOp_ne_in k) (isNullLit_B l) (isNullLit_B r), hml, hmr]; rfl
       · have : evalB ρ (.cmpB k l r) = cmpB3 k (evalB ρ l) (evalB ρ r) := by
           rw [evalB]; cases evalB ρ l <;> cases evalB ρ r <;> rfl
         rw [this, eval_cmp ρ k tl tr _ _ hel her, cmpVals_bool k (by simpa using hw.1.1)]
